@@ -24,6 +24,7 @@ type COp struct {
 	S    int    `json:"s"`              // salt: -1 nil, 0 empty (non-nil), 1..3
 	I    int    `json:"i"`              // info: likewise
 	EWI  bool   `json:"ewi,omitempty"`  // the payload implements EventWrapperInfo
+	TM   bool   `json:"tm,omitempty"`   // the payload is a Taggable map: data[0] as []byte and as string under hmac tags, data[1] likewise under encrypt tags
 	EvID int    `json:"evid,omitempty"` // event id "ev<n>", 0 = ""
 	Data []int  `json:"data,omitempty"` // data ids of the five filtered fields
 }
@@ -90,6 +91,17 @@ func callbackPart(c CCase, keys []keyCand) []string {
 		}
 	}
 	return out
+}
+
+// CTM: a Taggable map holding the same data as []byte and as string under tagged keys
+type CTM map[string]interface{}
+
+func (t CTM) Tags() ([]encrypt.PointerTag, error) {
+	return []encrypt.PointerTag{
+		{Pointer: "/hb", Classification: encrypt.SensitiveClassification, Filter: encrypt.HmacSha256Operation},
+		{Pointer: "/hs", Classification: encrypt.SecretClassification, Filter: encrypt.HmacSha256Operation},
+		{Pointer: "/eb", Classification: encrypt.SensitiveClassification},
+		{Pointer: "/es", Classification: encrypt.SecretClassification, Filter: encrypt.EncryptOperation}}, nil
 }
 
 func (p *CEwi) EventId() string  { return p.id }
@@ -219,6 +231,9 @@ func rotOpts(o COp) []encrypt.Option {
 
 func mkPayload(o COp) interface{} {
 	d := func(i int) []byte { return append([]byte{}, dataPool[o.Data[i]]...) }
+	if o.TM {
+		return CTM{"hb": d(0), "hs": string(d(0)), "eb": d(1), "es": string(d(1))}
+	}
 	if o.EWI {
 		id := ""
 		if o.EvID > 0 {
@@ -235,6 +250,17 @@ func outFields(p interface{}) []string {
 		return []string{x.E1, string(x.E2), x.H1, string(x.H2), x.E3}
 	case *CEwi:
 		return []string{x.E1, string(x.E2), x.H1, string(x.H2), x.E3}
+	case CTM:
+		out := make([]string, 4)
+		for i, k := range []string{"hb", "hs", "eb", "es"} {
+			switch v := x[k].(type) {
+			case string:
+				out[i] = v
+			case []byte:
+				out[i] = string(v)
+			}
+		}
+		return out
 	}
 	return nil
 }
@@ -291,10 +317,17 @@ func execCrypto(c CCase) cresult {
 					}
 					ewi = fmt.Sprintf("(Some (%s, %s, %s))", id, optBstrLit(o.S), optBstrLit(o.I))
 				}
-				vals := make([]string, 5)
-				for i, d := range o.Data {
+				// which data id and which operation each output field carries
+				dataOf := o.Data
+				isHmac := func(i int) bool { return i == 2 || i == 3 }
+				if o.TM {
+					dataOf = []int{o.Data[0], o.Data[0], o.Data[1], o.Data[1]}
+					isHmac = func(i int) bool { return i < 2 }
+				}
+				vals := make([]string, len(dataOf))
+				for i, d := range dataOf {
 					cop := "CEnc []"
-					if i == 2 || i == 3 {
+					if isHmac(i) {
 						cop = "CHmac"
 					}
 					vals[i] = fmt.Sprintf("(%s, %s)", cop, bstrLit2(d))
@@ -315,10 +348,10 @@ func execCrypto(c CCase) cresult {
 					shipped = true
 					items := make([]string, len(fs))
 					for i, s := range fs {
-						orig := dataPool[o.Data[i]]
-						if i == 2 || i == 3 {
+						orig := dataPool[dataOf[i]]
+						if isHmac(i) {
 							var a attribution
-							items[i], a = attributeHmac(s, orig, o.Data[i], keys, ship)
+							items[i], a = attributeHmac(s, orig, dataOf[i], keys, ship)
 							res.log = append(res.log, fmt.Sprintf("step %d value %d: hmac under key %d salt %d info %d (found %v)", n, i, a.kid, a.sid, a.iid, a.ok))
 						} else {
 							items[i] = attributeEnc(s, orig, keys, ship)
@@ -419,7 +452,9 @@ func (g *gen) cryptoCase(n int) CCase {
 			c.Ops = append(c.Ops, COp{K: "rotpayload", W: r.Intn(5), S: comp(), I: comp()})
 		default:
 			o := COp{K: "event", S: -1, I: -1, Data: []int{pick(), pick(), pick(), pick(), pick()}}
-			if r.Chance(2, 5) {
+			if r.Chance(1, 6) {
+				o.TM = true
+			} else if r.Chance(2, 5) {
 				o.EWI = true
 				o.EvID = r.Intn(4)
 				if r.Chance(3, 4) && o.EvID == 0 {
@@ -454,7 +489,8 @@ func cryptoSpecials() []CCase {
 			{K: "rotpayload", W: 0, S: 0, I: -1},
 			{K: "event", S: -1, I: -1, Data: all(d)},
 			{K: "event", EWI: true, EvID: 0, S: 1, I: 1, Data: all(d)},
-			{K: "event", EWI: true, EvID: 2, S: 3, I: 3, Data: all(d)}}})
+			{K: "event", EWI: true, EvID: 2, S: 3, I: 3, Data: all(d)},
+			{K: "event", TM: true, S: -1, I: -1, Data: all(d)}}})
 	}
 	out = append(out, CCase{Gen: "special", Init: COp{W: 0, S: -1, I: -1}, Ops: []COp{
 		{K: "event", S: -1, I: -1, Data: all(1)}, {K: "event", EWI: true, EvID: 1, S: -1, I: -1, Data: all(1)},
